@@ -201,6 +201,7 @@ pub async fn call_shape(ch: &Channel, rpc: Tok, variant: Tok, k: Tok, hdr: &Opti
                 5 => Some(p2::SignalId { signal: Some(p2::signal_id::Signal::Id(-1)) }),
                 6 => Some(p2::SignalId { signal: Some(p2::signal_id::Signal::Id(i32::MAX)) }),
                 7 => v2_sig("Srv.*"),
+                8 | 9 => v2_sig(&name),
                 v if v >= 100 => v2_sig(&text),
                 _ => return -2,
             };
@@ -210,6 +211,12 @@ pub async fn call_shape(ch: &Channel, rpc: Tok, variant: Tok, k: Tok, hdr: &Opti
                 let signal_ids = match (variant, sid) {
                     (1, _) => vec![],
                     (7, _) => (0..10_000).map(|_| v2_sig(&name).unwrap()).collect(),
+                    (8, _) => vec![
+                        p2::SignalId { signal: Some(p2::signal_id::Signal::Id(id)) },
+                        v2_sig(&name).unwrap(),
+                        p2::SignalId { signal: Some(p2::signal_id::Signal::Id(id)) },
+                    ],
+                    (9, _) => vec![v2_sig(&name).unwrap(), p2::SignalId { signal: Some(p2::signal_id::Signal::Id(id)) }, v2_sig(&name).unwrap()],
                     (_, Some(s)) => vec![v2_sig(&name).unwrap(), s],
                     (_, None) => vec![],
                 };
@@ -257,13 +264,24 @@ pub async fn call_shape(ch: &Channel, rpc: Tok, variant: Tok, k: Tok, hdr: &Opti
                     }),
                 },
                 7 => p2::ActuateRequest { signal_id: Some(p2::SignalId { signal: Some(p2::signal_id::Signal::Id(i32::MIN)) }), value: None },
+                8 | 9 => p2::ActuateRequest { signal_id: Some(p2::SignalId { signal: Some(p2::signal_id::Signal::Id(id)) }), value: v2_dp(k).value },
                 v if v >= 100 => p2::ActuateRequest { signal_id: v2_sig(&text), value: v2_dp(k).value },
                 _ => return -2,
             };
             if rpc == 9 {
                 code_of(v2.actuate(with_auth(one, hdr)).await)
             } else {
-                let actuate_requests = if variant == 7 { vec![] } else { vec![one.clone(), one] };
+                let by_id = p2::ActuateRequest {
+                    signal_id: Some(p2::SignalId { signal: Some(p2::signal_id::Signal::Id(id)) }),
+                    value: v2_dp(k).value,
+                };
+                let by_path = p2::ActuateRequest { signal_id: v2_sig(&name), value: v2_dp(k).value };
+                let actuate_requests = match variant {
+                    7 => vec![],
+                    8 => vec![by_id.clone(), by_path.clone(), by_id],
+                    9 => vec![by_path.clone(), by_id, by_path],
+                    _ => vec![one.clone(), one],
+                };
                 code_of(v2.batch_actuate(with_auth(p2::BatchActuateRequest { actuate_requests }, hdr)).await)
             }
         }
@@ -360,6 +378,22 @@ pub async fn call_shape(ch: &Channel, rpc: Tok, variant: Tok, k: Tok, hdr: &Opti
                 10 => {
                     dps.insert(id, p2::Datapoint { timestamp: ts(i64::MAX, i32::MIN), value: Some(p2::Value { typed_value: None }) });
                     vec![act(Some(A::PublishValuesRequest(p2::PublishValuesRequest { request_id: i32::MIN, data_points: dps })))]
+                }
+                // identifiers of both forms (id / path / neither) in every order
+                11..=16 => {
+                    let by_id = |i: i32| p2::SignalId { signal: Some(p2::signal_id::Signal::Id(i)) };
+                    let by_path = v2_sig(&sig_name(9)).unwrap();
+                    let none = p2::SignalId { signal: None };
+                    let own = *ids.get(&sig_name(10)).unwrap_or(&0);
+                    let list = match variant {
+                        11 => vec![by_id(own), by_path],
+                        12 => vec![by_path, by_id(own)],
+                        13 => vec![none, by_path],
+                        14 => vec![by_id(-1), by_path, by_id(own)],
+                        15 => vec![by_id(own), by_id(own), by_path.clone(), by_path],
+                        _ => vec![by_path, none, by_id(i32::MAX)],
+                    };
+                    vec![act(Some(A::ProvideActuationRequest(p2::ProvideActuationRequest { actuator_identifiers: list })))]
                 }
                 v if v >= 100 => vec![act(Some(A::ProvideActuationRequest(p2::ProvideActuationRequest {
                     actuator_identifiers: vec![v2_sig(&text).unwrap()],
